@@ -69,6 +69,9 @@ package cache
 //@   ensures result == nil
 //@   check c.capacity > 0 && !(c.maxSize > 0 && size > c.maxSize) ==> has(c.items, key) && ent(c.items[key]).Key == key && ent(c.items[key]).Value == value && lat(c.evictList, 0) == c.items[key]
 //@   check !(c.capacity > 0 && !(c.maxSize > 0 && size > c.maxSize)) ==> !has(c.items, key)
+//@   check has(c.items, key) ==> ent(c.items[key]) == entry && entry.ExpiresAt == expiresAt && entry.Size == size
+//@   check ite(ttl == 0, c.ttl, ttl) <= 0 ==> expiresAt == 0
+//@   check ite(ttl == 0, c.ttl, ttl) > 0 ==> old(clocknow()) + ite(ttl == 0, c.ttl, ttl) <= expiresAt && expiresAt <= clocknow() + ite(ttl == 0, c.ttl, ttl)
 //@   ensures forall(k, string, k != key && has(c.items, k) ==> atlock(has(c.items, k)) && c.items[k] == atlock(c.items[k]))
 //@   ensures !atlock(has(c.items, key)) && has(c.items, key) ==> forall(i, 1, llen(c.evictList), lat(c.evictList, i) == atlock(lat(c.evictList, i - 1)))
 //@   loop 1 invariant heldw(lk(c)) && wfBase(c) && !has(c.items, key) && c.capacity > 0 && entry != nil && fresh(entry)
@@ -83,6 +86,9 @@ package cache
 //@   ensures result == nil
 //@   check c.capacity > 0 && !(c.maxSize > 0 && size > c.maxSize) ==> has(c.items, key) && ent(c.items[key]).Key == key && ent(c.items[key]).Value == value && lat(c.evictList, 0) == c.items[key]
 //@   check !(c.capacity > 0 && !(c.maxSize > 0 && size > c.maxSize)) ==> !has(c.items, key)
+//@   check has(c.items, key) ==> ent(c.items[key]) == entry && entry.ExpiresAt == expiresAt && entry.Size == size
+//@   check ite(ttl == 0, c.ttl, ttl) <= 0 ==> expiresAt == 0
+//@   check ite(ttl == 0, c.ttl, ttl) > 0 ==> old(clocknow()) + ite(ttl == 0, c.ttl, ttl) <= expiresAt && expiresAt <= clocknow() + ite(ttl == 0, c.ttl, ttl)
 //@   ensures forall(k, string, k != key && has(c.items, k) ==> atlock(has(c.items, k)) && c.items[k] == atlock(c.items[k]))
 //@   ensures !atlock(has(c.items, key)) && has(c.items, key) ==> forall(i, 1, llen(c.evictList), lat(c.evictList, i) == atlock(lat(c.evictList, i - 1)))
 //@   loop 1 invariant heldw(lk(c)) && wfBase(c) && !has(c.items, key) && c.capacity > 0 && entry != nil && fresh(entry)
